@@ -1,7 +1,7 @@
 (* C01SizeProofs.v — Size() = bytes written for every leaf kind of the C01 model (the leaf part of C02, kept with the
    model because the fixed-point theorem of C01 needs it: a re-encoded box fills exactly its announced size). *)
 From V.lib Require Import Base.
-From V.c01 Require Import C01Codec C01Model C01LeafProofs C01TreeProofs.
+From V.c01 Require Import C01Codec C01Model C01LeafProofs C01TreeProofs C01EsdsProofs.
 
 (* ---------------------------------------------------------------- leaves *)
 Definition leaf_size_guard (l : leaf) : bool :=
@@ -218,4 +218,5 @@ Proof.
   - (* kind *) lens. lia.
   - (* hvcC *) cbn [size_leaf chunk nth hd]. lens. rewrite lenN_wr_narrs. lia.
   - (* subs *) cbn [size_leaf]. lens. rewrite lenN_wr_subs_entries. lia.
+  - (* esds *) apply (esds_body_len version flags nb esid fl dep url ocr dcd children unknown canon) in Eb. cbn [size_leaf]. lens. lia.
 Qed.
